@@ -39,7 +39,7 @@ def handle (args : List String) : String :=
       pure (out (flatten.term s.length a b) (rS (flatten.model s a b)) (rS (flatten.spec s a b)))).getD bad
   | ["unflatten", s, d, z] => (do
       let s ← pShape s; let d ← pInt d; let z ← pInts z
-      pure (out (unflatten.term s.length d z) (rS (unflatten.model s d z)) (rS (unflatten.spec s d z)))).getD bad
+      pure (out (unflatten.term s d z) (rS (unflatten.model s d z)) (rS (unflatten.spec s d z)))).getD bad
   | ["view", s, z] => (do
       let s ← pShape s; let z ← pInts z
       pure (out (view.term z) (rS (view.model s z)) (rS (view.spec s z)))).getD bad
@@ -76,7 +76,7 @@ def handle (args : List String) : String :=
       pure (out (slice.term d a b c) (rS (slice.model s d a b c)) (rS (slice.spec s d a b c)))).getD bad
   | ["narrow", s, d, a, b, tf] => (do
       let s ← pShape s; let d ← pInt d; let a ← pInt a; let b ← pInt b; let tf ← pBool tf
-      pure (out (narrow.term tf d a b) (rS (narrow.model s d a b)) (rS (narrow.spec s d a b)))).getD bad
+      pure (out (narrow.term s tf d a b) (rS (narrow.model s tf d a b)) (rS (narrow.spec s d a b)))).getD bad
   | ["select", s, d, i] => (do
       let s ← pShape s; let d ← pInt d; let i ← pInt i
       pure (out (select.term d i) (rS (select.model s d i)) (rS (select.spec s d i)))).getD bad
@@ -85,10 +85,12 @@ def handle (args : List String) : String :=
       pure (out (index_select.term s.length d) (rS (index_select.model s d n.toNat)) (rS (index_select.spec s d n.toNat)))).getD bad
   | ["chunk", s, c, d] => (do
       let s ← pShape s; let c ← pInt c; let d ← pInt d
-      pure (out (terms (chunk.term c.toNat d)) (rL (chunk.model s c.toNat d)) (rL (chunk.spec s c.toNat d)))).getD bad
+      let dd := match normAxis s.length d with | some a => s.getD a 0 | none => 0
+      pure (out (terms (chunk.term dd c.toNat d)) (rL (chunk.model s c.toNat d)) (rL (chunk.spec s c.toNat d)))).getD bad
   | ["split", s, z, d] => (do
       let s ← pShape s; let z ← pInt z; let d ← pInt d
-      pure (out (split.term z d) (rL (split.model s z d)) (rL (split.spec s z d)))).getD bad
+      let dd := match normAxis s.length d with | some a => s.getD a 0 | none => 1
+      pure (out (split.term dd z d) (rL (split.model s z d)) (rL (split.spec s z d)))).getD bad
   | ["split_with_sizes", s, z, d] => (do
       let s ← pShape s; let z ← pInts z; let d ← pInt d
       pure (out (split_with_sizes.term z d) (rL (split_with_sizes.model s z d)) (rL (split_with_sizes.spec s z d)))).getD bad
@@ -230,6 +232,18 @@ def handle (args : List String) : String :=
       let s ← pShape s; let pd ← pInts pd
       let t := if kind == "c" then pad.termConst s.length pd arg else if kind == "n" then pad.termMode s.length pd "constant" else pad.termMode s.length pd arg
       pure (out t (rS (pad.model s pd)) (rS (pad.spec s pd)))).getD bad
+  | ["unfold", s, d, z, st] => (do
+      let s ← pShape s; let d ← pInt d; let z ← pInt z; let st ← pInt st
+      pure (out (unfold_.term s.length d z st) (rS (unfold_.model s d z st)) (rS (unfold_.spec s d z st)))).getD bad
+  | ["upsample", s, o, sc, mode, ctm] => (do
+      let s ← pShape s; let o ← pInts o; let sc ← pOptInts sc
+      pure (out (upsample.term o sc mode ctm) (rS (upsample.model s o sc)) (rS (upsample.spec s o)))).getD bad
+  | ["col2im", s, o, k, dl, pd, st] => (do
+      let s ← pShape s; let o ← pInts o; let k ← pInts k; let dl ← pInts dl; let pd ← pInts pd; let st ← pInts st
+      pure (out (col2im.term o k dl pd st) (rS (col2im.model s o k dl pd st)) (rS (col2im.spec s o k dl pd st)))).getD bad
+  | ["im2col", s, k, dl, pd, st] => (do
+      let s ← pShape s; let k ← pInts k; let dl ← pInts dl; let pd ← pInts pd; let st ← pInts st
+      pure (out (im2col.term k dl pd st) (rS (im2col.model s k dl pd st)) (rS (im2col.spec s k dl pd st)))).getD bad
   -- creation
   | ["linspace", n] => (do
       let n ← pInt n
